@@ -184,6 +184,20 @@ def vwrite(repo, templates):
                              (".CouldWriteValue(", "the destination's range")):
             if needle not in c:
                 res.add(f"{name}|CouldWriteValue|{what}", f"virtual CouldWriteValue no longer tests {what}", TEMPLATES, templates[name]["line"])
+        # range: the inverse transform is computed in types sized for the field's own range, so a value outside it must be
+        # refused before the transform is evaluated -- in CouldWriteValue and (by calling it first) in TryToWrite
+        res.instances += 2
+        rg = re.search(r"if\s*\(\s*V_value_out_of_range\s*\)\s*return\s+false", c)
+        tf = c.find("V_transform")
+        if not rg or (tf >= 0 and rg.start() > tf):
+            res.add(f"{name}|CouldWriteValue|range", "virtual CouldWriteValue evaluates the inverse transform without first rejecting "
+                    "values outside the field's static range: `let v = x + 1` over UInt:32 accepts 0 (stores 0xFFFFFFFF) and "
+                    "CouldWriteValue(INT64_MIN) overflows", TEMPLATES, templates[name]["line"])
+        if t is not None:
+            g2, t2 = t.find("CouldWriteValue("), t.find("V_transform")
+            if g2 < 0 or (t2 >= 0 and t2 < g2):
+                res.add(f"{name}|TryToWrite|transform-first", "virtual TryToWrite evaluates the inverse transform before CouldWriteValue has "
+                        "accepted the value", TEMPLATES, templates[name]["line"])
         # presence: a conditional virtual field (`if c: let v = x - 40`) that does not exist must refuse writes, and the test
         # must come before the destination is consulted
         res.instances += 1
